@@ -270,6 +270,83 @@ def run(F, rep, tier):
             else:
                 rep.viol('R14.4', evaluate + '|InternalFrame|truncate', 'the internal stack is not truncated on the error path of an internal frame', eb.loc(min(regn)) if regn else None)
 
+    # ---------------- R14.7
+    rep.rule('R14.7', 'partial division-like operations (NInt/NNum Rem, div_floor, mod_floor, Ratio recip/new/Div/Rem, rem_euclid, DivAssign) '
+             'called outside the operator layers: the divisor is a non-zero constant, or a zero test / length comparison on the same value '
+             'dominates the call with the right polarity, or the site is in the reviewed table; Cycle is only built from a non-empty base')
+    PART = re.compile(r"^(<&?(nint::NInt) as std::ops::(Div|Rem)(<.*>)?>::(div|rem)|<&?nnum::NNum as std::ops::Rem(<.*>)?>::rem|nnum::NNum::(div_floor|mod_floor)|"
+                      r"nint::NInt::(div_floor|mod_floor)|num::rational::Ratio::<T>::(recip|new)|.*Ratio<T>.* as std::ops::(Div|Rem).*|"
+                      r"core::num::<impl [iu]\w+>::(rem_euclid|div_euclid)|<nint::NInt as std::ops::DivAssign<u32>>::div_assign)$")
+    n7 = 0
+    for b in F.all_bodies():
+        if b.path not in R:
+            continue
+        if re.match(r'^<&?(nnum::NNum|nint::NInt) as std::ops::', b.path) or b.path in ('nnum::NNum::div_floor', 'nnum::NNum::mod_floor', 'nint::NInt::div_floor', 'nint::NInt::mod_floor'):
+            continue
+        for c in b.calls:
+            if not PART.match(c.target):
+                continue
+            n7 += 1
+            fk = C.fn_key(b.path)
+            last = c.target.rsplit('::', 1)[-1]
+            div = c.args[0] if last == 'recip' else c.args[-1]
+            dor = origins(b, div, passthru=('from', 'into', 'clone', 'deref', 'borrow', 'new', 'to_bigint', 'into_bigint', 'into_owned', 'as_ref'))
+            dset = {str(o[:2]) for o in dor}
+            roots = b.roots(div, through_calls=(r'into_bigint$', r'to_bigint$', r'into_owned$'))
+            # (1) constant divisor
+            if roots and all(r[0] == 'const' and not re.match(r'^0(_|$)', r[1]) for r in roots):
+                rep.ok('R14.7', '%s: %s' % (fk, last), 'constant non-zero divisor')
+                continue
+            # (2) zero test dominating with polarity
+            okg = False
+            for g in b.calls:
+                gl = g.target.rsplit('::', 1)[-1]
+                if gl not in ('is_zero', 'is_nonzero', 'is_empty') or not b.dominates(g.bb, c.bb):
+                    continue
+                go = {str(o[:2]) for o in origins(b, g.args[0], passthru=('from', 'into', 'clone', 'deref', 'borrow', 'new', 'to_bigint', 'into_bigint', 'into_owned', 'as_ref'))}
+                if not (go & dset) and not ({r[:2] for r in b.roots(g.args[0])} & {r[:2] for r in roots}):
+                    continue
+                if only_when(b, g, [c.bb], want=(gl == 'is_nonzero'))[0]:
+                    okg = True
+            if okg:
+                rep.ok('R14.7', '%s: %s' % (fk, last), 'zero test on the divisor dominates the call')
+                continue
+            # (3) comparison of a length with 0
+            for i in b.dominators()[c.bb]:
+                for s_ in b.stmts(i):
+                    if s_[0] == 'a' and s_[2][0] == 'bin' and s_[2][1] in ('Eq', 'Ne') and s_[2][3][0] == 'k' and s_[2][3][2].startswith('0_'):
+                        lo = {r[:2] for r in b.roots(s_[2][2])}
+                        if lo & {r[:2] for r in roots}:
+                            for (sw, tt, ff) in bool_switches(b, s_[1][0]):
+                                good = ff if s_[2][1] == 'Eq' else tt
+                                bad = tt if s_[2][1] == 'Eq' else ff
+                                if c.bb in b.reachable_from(good, avoid={sw}) and c.bb not in b.reachable_from(bad, avoid={sw}):
+                                    okg = True
+            if okg:
+                rep.ok('R14.7', '%s: %s' % (fk, last), 'length compared with 0 before dividing by it')
+                continue
+            reason = None
+            for rx, l2, why in T.PARTIAL_TABLE:
+                if l2 == last and re.search(rx, fk):
+                    reason = why
+            if reason:
+                rep.ok('R14.7', '%s: %s' % (fk, last), 'reviewed: ' + reason)
+            else:
+                rep.viol('R14.7', '%s|partial|%s' % (fk, last), '%s calls %s with a divisor that is neither constant nor tested for zero: the dependency panics on a zero divisor (not a catchable error)' % (fk, c.target.split('<')[0][:60] + last), c.loc())
+    rep.floor('R14.7', 'partial operations outside the operator layers', n7, 20)
+    # the Cycle non-emptiness belief
+    built = [(b, bb) for b in F.all_bodies() for bb, s_ in b.aggregates() if s_[2][2] == 'streams::Cycle']
+    for b, bb in built:
+        fk = C.fn_key(b.path)
+        if fk.startswith('<streams::Cycle as '):
+            rep.ok('R14.7', 'Cycle built in %s' % fk, 'derived from an existing (non-empty) Cycle')
+            continue
+        emp = [g for g in b.calls if g.target.rsplit('::', 1)[-1] == 'is_empty' and b.dominates(g.bb, bb)]
+        if emp and only_when(b, emp[0], [bb], want=False)[0]:
+            rep.ok('R14.7', 'Cycle built in %s' % fk, 'only when the base is not empty')
+        else:
+            rep.viol('R14.7', '%s|cycle-empty' % fk, 'a Cycle stream can be built over an empty base: next/index then take a remainder by zero and index an empty vector', b.loc(bb))
+
     # ---------------- R14.6
     rep.rule('R14.6', 'peek()-guarded loops consume or leave on every path (C11 R11.3, evaluated crate-wide here)')
     n6 = 0
